@@ -373,3 +373,135 @@ Fixpoint hist_eqb (a b : hist) : bool :=
 
 Definition ohist_eqb (a : option hist) (b : option hist) : bool :=
   match a, b with Some x, Some y => hist_eqb x y | None, None => true | _, _ => false end.
+
+(* ------------------------------------------------------------------ get / save / load as regenerated from the source
+   The statement sequences of History.get, History.save and History.load as data (Gen/HistoryDescr.v:
+   get_descr, save_descr, load_descr, regenerated by translate/t4_history.py on every check), the
+   descriptors the hand-written model functions implement (model_*_descr), and interpreters.
+   [None] = the sequence is outside the interpreted vocabulary (never a value of the model). *)
+Inductive libexc := LTypeError | LSizeError | LValueError | LArgumentError | LBuildError.   (* utils/exception.py *)
+
+Inductive mpart :=               (* pieces of the exception message (a literal or an f-string) *)
+| MStr (s : string)
+| MLenIndex                      (* {len(index)} *)
+| MNdim.                         (* {<array>.ndim} *)
+
+Inductive gterm :=
+| TNdim (off : Z)                (* <array>.ndim + off *)
+| TLenIndex.                     (* len(index) *)
+
+Inductive gcmp := CEq | CNe | CLt | CLe | CGt | CGe.
+
+Inductive spart :=               (* operands of the tuple concatenation used as subscript *)
+| SAll                           (* (slice(None),) *)
+| SIndex.                        (* index *)
+
+Inductive gstmt :=
+| GGuardNotTuple (exc : libexc) (msg : list mpart)      (* if not isinstance(index, tuple): raise e.<exc>(msg) *)
+| GAsArray (catch : string) (fallback_object : bool)    (* try: a = np.asarray(getattr(self, key))
+                                                           except <catch>: a = np.asarray(getattr(self, key), dtype=object) *)
+| GGuardSize (l : gterm) (op : gcmp) (r : gterm) (exc : libexc) (msg : list mpart)   (* if l op r: raise e.<exc>(msg) *)
+| GSlice (parts : list spart)                           (* a = a[p1 + p2 + ...] *)
+| GStack (fn : string)                                  (* a = np.<fn>(a) *)
+| GReturn.                                              (* return a *)
+
+Definition gdescr := list gstmt.
+
+Definition model_get_descr : gdescr :=
+  [ GGuardNotTuple LTypeError [MStr "`index` should be a tuple"];
+    GAsArray "ValueError" true;
+    GGuardSize (TNdim (-1)) CNe TLenIndex LSizeError
+      [MStr "`index` = "; MLenIndex; MStr " should have one less dimension than `key` = "; MNdim];
+    GSlice [SAll; SIndex];
+    GStack "hstack";
+    GReturn ].
+
+Definition exc_err (e : libexc) : option err :=
+  match e with LTypeError => Some TypeErr | LSizeError => Some SizeErr | _ => None end.
+
+Definition cmp_eval (op : gcmp) (x y : Z) : bool :=
+  match op with
+  | CEq => x =? y | CNe => negb (x =? y) | CLt => x <? y | CLe => x <=? y | CGt => y <? x | CGe => y <=? x
+  end.
+
+Inductive gstate := GS0 | GSArr (a : val) | GSPieces (l : list val) | GSOut (v : val).
+
+Definition raise_lib (e : libexc) : option (res val) :=
+  match exc_err e with Some x => Some (Err x) | None => None end.
+
+Fixpoint get_run (d : gdescr) (h : hist) (key : string) (index : pyindex) (st : gstate) : option (res val) :=
+  match d with
+  | [] => None
+  | s :: t =>
+      match s, st, index with
+      | GGuardNotTuple exc _, _, INotTuple => raise_lib exc
+      | GGuardNotTuple _ _, _, ITuple _ => get_run t h key index st
+      | GAsArray catch fb, GS0, _ =>
+          match lookup key h with
+          | None => Some (Err AttrErr)
+          | Some a => if regular a || (String.eqb catch "ValueError" && fb)
+                      then get_run t h key index (GSArr a) else Some (Err ValueErr)
+          end
+      | GGuardSize l op r exc _, GSArr a, ITuple idx =>
+          let ev := fun g => match g with TNdim off => ndim a + off | TLenIndex => Z.of_nat (List.length idx) end in
+          if cmp_eval op (ev l) (ev r) then raise_lib exc else get_run t h key index st
+      | GSlice [SAll; SIndex], GSArr a, ITuple idx =>
+          match norm_all idx (tl (shape a)) with
+          | None => Some (Err IndexErr)
+          | Some nidx => get_run t h key index (GSPieces (map (descend nidx) (elems a)))
+          end
+      | GStack fn, GSPieces l, _ =>
+          if String.eqb fn "hstack"
+          then match hstack l with Ok v => get_run t h key index (GSOut v) | Err e => Some (Err e) end
+          else None
+      | GReturn, GSOut v, _ => Some (Ok v)
+      | _, _, _ => None
+      end
+  end.
+
+Definition get_d (d : gdescr) (h : hist) (key : string) (index : pyindex) : option (res val) :=
+  get_run d h key index GS0.
+
+(* ---- save / load *)
+Inductive ioobj := OSelf | OLoaded.           (* the History itself / the unpickled object h *)
+Inductive iostmt :=
+| IOOpen (mode : string)                      (* with open(file_name, mode) as f: *)
+| IOPickleDump (o : ioobj)                    (* pickle.dump(<o>, f) *)
+| IOPickleLoad                                (* h = pickle.load(f) *)
+| IODictUpdate (target source : ioobj).       (* <target>.__dict__.update(<source>.__dict__) *)
+
+Definition model_save_descr : list iostmt := [IOOpen "wb"; IOPickleDump OSelf].
+Definition model_load_descr : list iostmt := [IOOpen "rb"; IOPickleLoad; IODictUpdate OSelf OLoaded].
+
+Section PickleDescr.
+  Variable bytes : Type.
+  Variable pickle : hist -> bytes.
+  Variable unpickle : bytes -> hist.
+
+  (* 'wb' truncates: the file afterwards is exactly what was dumped *)
+  Definition save_d (d : list iostmt) (h : hist) : option bytes :=
+    match d with
+    | [IOOpen m; IOPickleDump OSelf] => if String.eqb m "wb" then Some (pickle h) else None
+    | _ => None
+    end.
+
+  Fixpoint load_steps (d : list iostmt) (f : bytes) (self : hist) (loaded : option hist) : option hist :=
+    match d with
+    | [] => Some self
+    | IOPickleLoad :: t => load_steps t f self (Some (unpickle f))
+    | IODictUpdate OSelf OLoaded :: t =>
+        match loaded with Some l => load_steps t f (dict_update self l) loaded | None => None end
+    | IODictUpdate OLoaded OSelf :: t =>
+        match loaded with Some l => load_steps t f self (Some (dict_update l self)) | None => None end
+    | IODictUpdate OSelf OSelf :: t => load_steps t f (dict_update self self) loaded
+    | IODictUpdate OLoaded OLoaded :: t =>
+        match loaded with Some l => load_steps t f self (Some (dict_update l l)) | None => None end
+    | _ :: _ => None
+    end.
+
+  Definition load_d (d : list iostmt) (s : hist) (f : bytes) : option hist :=
+    match d with
+    | IOOpen m :: t => if String.eqb m "rb" then load_steps t f s None else None
+    | _ => None
+    end.
+End PickleDescr.
